@@ -140,6 +140,10 @@ pub fn simplify_polyline(points: &[PointF], epsilon: f32) -> Vec<PointF> {
 /// treated as a polygon where the last point implicitly connects to the first
 /// point to close the shape.
 pub fn simplify_polygon(points: &[PointF], epsilon: f32) -> Vec<PointF> {
+    if points.is_empty() {
+        return Vec::new();
+    }
+
     // Convert polygon to polyline.
     let mut polyline = points.to_vec();
     polyline.push(points[0]);
